@@ -547,6 +547,9 @@ class Engine:
         if base is None or is_intlike(base) or is_byteslike(base):
             # plain python value: an attribute its python type does not have is an AttributeError outcome
             rep = None if base is None else self.models._py_representative(base)
+            if rep is not _MISSING and attr == '__class__':
+                yield st, PyClassV(type(rep))
+                return
             if rep is not _MISSING and not hasattr(rep, attr):
                 sink.append(('raise', st, exc(AttributeError, attr)))
                 return
@@ -1408,7 +1411,9 @@ class Engine:
         outs = []
         for s1, v in self.ev(n.test, st, sink):
             t = self.truth(v, s1)
-            if st.frames and st.frame.spec_mode:
+            # (the mode of the LIVE state s1: `st` may be a stale object that still carries the spec frame a contract
+            # application pushed while the test was evaluated -- an assert after a call must stay an obligation)
+            if s1.frames and s1.frame.spec_mode:
                 s1.assume(t if not isinstance(t, bool) else z3.BoolVal(t))
                 outs.append(('fall', s1))
                 continue
